@@ -214,7 +214,8 @@ func txMode(r *sim.Rng, nStates, perState int, cw *sim.CaseWriter, outDir string
 			if !okTx && (propNo == 0 || propNo == 7) {
 				// side state that is rolled back by hand: the slash tracker's content and the pending events
 				_, _, _, _, _, eventsAfter := n.FSM.VerifSideState()
-				if after := n.FSM.VerifSlashTrackerDigest(); after != trackerBefore || eventsAfter != eventsBefore {
+				// (events pending before the transaction come only from the harness's own direct slashes; a failure clears them all)
+				if after := n.FSM.VerifSlashTrackerDigest(); after != trackerBefore || eventsAfter > eventsBefore {
 					sim.Direct(outDir, map[string]any{"finding": "failed-transaction-left-trace", "kind": "slash tracker or pending events differ after a failed transaction",
 						"tracker_before": trackerBefore, "tracker_after": after, "events_before": eventsBefore, "events_after": eventsAfter})
 				}
